@@ -465,6 +465,19 @@ def native_replay(replay_file):
     drv = rp.get("replay_driver")
     if not drv:
         return "no-driver", ""
+    if isinstance(drv, list):        # several scenario drivers for one job: reproduced if any of them reproduces
+        last = ("not-reproduced", "")
+        for one in drv:
+            rp1 = dict(rp, replay_driver=one)
+            tf = tempfile.NamedTemporaryFile("w", suffix=".json", delete=False)
+            json.dump(rp1, tf); tf.close()
+            try:
+                last = native_replay(tf.name)
+            finally:
+                os.unlink(tf.name)
+            if last[0] == "reproduced":
+                return last[0], "[%s] %s" % (one, last[1])
+        return last
     outdir = tempfile.mkdtemp(prefix="ksi-vp-native-")
     try:
         exe = build_native(os.path.join(VERIF, drv), outdir)
